@@ -16,7 +16,7 @@ fn unhex(s: &str) -> Vec<u8> {
     (0..s.len() / 2).map(|i| u8::from_str_radix(&s[2 * i..2 * i + 2], 16).unwrap_or(0)).collect()
 }
 
-fn manifest_bucket(v: &serde_json::Value) -> MBucket {
+pub fn manifest_bucket(v: &serde_json::Value) -> MBucket {
     let mut b = MBucket { next_int: v["next_int"].as_u64().unwrap_or(0), ..Default::default() };
     if let Some(m) = v["entries"].as_object() {
         for (k, e) in m {
@@ -70,7 +70,7 @@ pub fn golden_history(ps: u64, num_pages: usize) -> History {
     History { pagesize: ps, num_pages, strict: false, populate: false, txs: vec![tx(t1), tx(t2), tx(t3)], origin: format!("golden history at page size {}", ps) }
 }
 
-fn follow_ups(extra: usize, ps: u64) -> Vec<TxScript> {
+pub fn follow_ups(extra: usize, ps: u64) -> Vec<TxScript> {
     let put = |h: H, k: &str, tag: u64, len: usize| Op::Put { h, k: K::lit(k.as_bytes()), v: V { tag, len }, how: How::Slice, vhow: How::Slice };
     let mut v = scripted_follow_ups();
     // a long tail of small and medium commits: the free list is consumed, refilled and rewritten at
@@ -215,6 +215,10 @@ struct St {
     small_file_mismatches_refused: u64,
     wide_sweep_refused: u64,
     legacy_commit_count_files: u64,
+    walk_commits: u64,
+    walk_reopens: u64,
+    exact_fill_hits: u64,
+    exact_fill_commits: u64,
 }
 
 fn check_file(ctx: &Ctx, shard: &mut Shard, st: &mut St, golden: &Path, ps: u64, legacy: bool, manifest: &MBucket, scratch: &Scratch) {
@@ -340,7 +344,126 @@ fn check_file(ctx: &Ctx, shard: &mut Shard, st: &mut St, golden: &Path, ps: u64,
     let _ = std::fs::remove_file(&path);
 }
 
+/// Steer the on-disk free list to the lengths at which it EXACTLY fills its page run and check that such
+/// a file - perfectly conformant, but rare - opens again.  With a reader held open every freed page stays
+/// pending and the new free-list block is appended at the high-water mark, so the list written to the
+/// file is exactly as long as it was sized; transactions touching 0..3 buckets free different numbers of
+/// pages, which is used to land on the capacity exactly.  Returns (exact-fill files reopened, commits).
+fn exact_fill_probe(ctx: &Ctx, shard: &mut Shard, ps: u64, scratch: &Scratch, want_hits: u64) -> (u64, u64) {
+    use jammdb::OpenOptions;
+    let path = scratch.fresh("fill");
+    let copy = scratch.fresh("fillcopy");
+    let mut hits = 0u64;
+    let mut commits = 0u64;
+    let r = util::catch(|| -> Result<(), (String, String)> {
+        let e = |w: &str, e: jammdb::Error| ("layout:exact-fill:setup".to_string(), format!("{}: {}", w, e));
+        let db = OpenOptions::new().pagesize(ps).num_pages(6000).open(&path).map_err(|x| e("open", x))?;
+        let names = ["f0", "f1", "f2"];
+        {
+            let tx = db.tx(true).map_err(|x| e("tx", x))?;
+            for n in names {
+                let b = tx.create_bucket(n).map_err(|x| e("create", x))?;
+                b.put("k", vec![1u8; 20]).map_err(|x| e("put", x))?;
+            }
+            tx.commit().map_err(|x| e("commit", x))?;
+        }
+        let mut model: std::collections::BTreeMap<(usize, u64), Vec<u8>> = Default::default();
+        let reader = db.tx(false).map_err(|x| e("reader", x))?;
+        crate::c03::forbid_grow(true);
+        // pages freed by a transaction that touches k buckets, as last observed
+        let mut inc: [i64; 4] = [1, 3, 4, 5];
+        let mut last_n: i64 = -1;
+        for i in 0..1500u64 {
+            crate::report::progress();
+            let bytes = std::fs::read(&path).map_err(|x| ("layout:exact-fill:setup".to_string(), x.to_string()))?;
+            let head = &bytes[..(2 * ps as usize).min(bytes.len())];
+            let (m, _) = fileck::choose_meta(head, ps);
+            let m = match m { Some(m) => m, None => return Err(("layout:exact-fill:no-valid-header".into(), "no valid header after a commit".into())) };
+            let rep = fileck::check(&bytes[..((m.num_pages * ps) as usize).min(bytes.len())], ps);
+            let n = rep.free_entries.len() as i64;
+            let cap = ((rep.freelist_run.len() as u64 * ps).saturating_sub(40) / 8) as i64;
+            if n == cap && cap > 0 {
+                // this exact image must open, read back, check and take one more commit
+                std::fs::write(&copy, &bytes).map_err(|x| ("layout:exact-fill:setup".to_string(), x.to_string()))?;
+                let what = format!("file whose free list of {} entries exactly fills its {} page(s) at page size {}", n, rep.freelist_run.len(), ps);
+                let db2 = OpenOptions::new().pagesize(ps).num_pages(6000).open(&copy).map_err(|x| ("layout:exact-fill:open-fails".to_string(), format!("{}: open: {}", what, x)))?;
+                {
+                    let tx = db2.tx(false).map_err(|x| ("layout:exact-fill:open-fails".to_string(), format!("{}: tx: {}", what, x)))?;
+                    for ((bi, k), v) in &model {
+                        let b = tx.get_bucket(names[*bi]).map_err(|x| ("layout:exact-fill:contents".to_string(), format!("{}: {}", what, x)))?;
+                        if b.get_kv(k.to_be_bytes()).map(|kv| kv.value().to_vec()).as_ref() != Some(v) {
+                            return Err(("layout:exact-fill:contents".into(), format!("{}: a value reads back differently after reopening", what)));
+                        }
+                    }
+                }
+                db2.check().map_err(|x| ("layout:exact-fill:db-check".to_string(), format!("{}: DB::check: {}", what, x)))?;
+                {
+                    let tx = db2.tx(true).map_err(|x| ("layout:exact-fill:cannot-continue".to_string(), format!("{}: {}", what, x)))?;
+                    tx.get_or_create_bucket("after").and_then(|b| b.put("k", "v").map(|_| ())).map_err(|x| ("layout:exact-fill:cannot-continue".to_string(), format!("{}: {}", what, x)))?;
+                    tx.commit().map_err(|x| ("layout:exact-fill:cannot-continue".to_string(), format!("{}: commit: {}", what, x)))?;
+                }
+                db2.check().map_err(|x| ("layout:exact-fill:db-check".to_string(), format!("{}: DB::check after one more commit: {}", what, x)))?;
+                drop(db2);
+                hits += 1;
+                shard.set("exact_fill_files_reopened", format!("{} entries in {} page(s), page size {}", n, rep.freelist_run.len(), ps));
+                if hits >= want_hits {
+                    break;
+                }
+            }
+            // choose how many buckets the next transaction touches so as to land on the capacity
+            let d = cap - n;
+            let mut k = 3usize;
+            if d > 0 {
+                let mut best = 0usize;
+                for (kk, step) in inc.iter().enumerate() {
+                    if *step <= d && *step >= inc[best] {
+                        best = kk;
+                    }
+                }
+                k = if inc[best] <= d { best } else { 0 };
+            }
+            let tx = db.tx(true).map_err(|x| e("tx", x))?;
+            for bi in 0..k {
+                let b = tx.get_bucket(names[bi]).map_err(|x| e("get", x))?;
+                let key = i % 5;
+                let v = vec![(i % 251) as u8; 10 + (i % 7) as usize];
+                b.put(key.to_be_bytes(), v.clone()).map_err(|x| e("put", x))?;
+                model.insert((bi, key), v);
+            }
+            tx.commit().map_err(|x| ("layout:exact-fill:commit-fails".to_string(), format!("commit #{} with a reader open: {}", i, x)))?;
+            commits += 1;
+            if last_n >= 0 {
+                let after = std::fs::read(&path).ok().and_then(|b| {
+                    let (m, _) = fileck::choose_meta(&b[..(2 * ps as usize).min(b.len())], ps);
+                    m.map(|m| fileck::check(&b[..((m.num_pages * ps) as usize).min(b.len())], ps).free_entries.len() as i64)
+                });
+                if let Some(a) = after {
+                    if a - n > 0 && a - n < 40 {
+                        inc[k] = a - n;
+                    }
+                }
+            }
+            last_n = n;
+        }
+        crate::c03::forbid_grow(false);
+        drop(reader);
+        Ok(())
+    });
+    crate::c03::forbid_grow(false);
+    let _ = std::fs::remove_file(&path);
+    let _ = std::fs::remove_file(&copy);
+    match r {
+        Ok(Ok(())) => {}
+        Ok(Err((sig, d))) if sig.ends_with(":setup") => shard.inconclusive(d),
+        Ok(Err((sig, d))) => shard.violation(ctx, &sig, &d, &serde_json::json!({"kind": "exact-fill", "pagesize": ps})),
+        Err(p) if p.msg.contains(crate::c03::GROW_MSG) => shard.inconclusive("exact-fill probe: the pre-sized file was too small".into()),
+        Err(p) => shard.violation(ctx, &format!("layout:exact-fill:{}", util::panic_signature(&p)), &format!("panic at {}:{}: {}", p.file, p.line, p.msg), &serde_json::json!({"kind": "exact-fill", "pagesize": ps})),
+    }
+    (hits, commits)
+}
+
 pub fn run(ctx: &Ctx) -> Shard {
+    crate::c03::install_no_grow_handler();
     let mut shard = Shard::new("C15");
     let scratch = Scratch::new("C15");
     let dir = PathBuf::from(ctx.get("golden").unwrap_or("/verif/out/golden"));
@@ -426,6 +549,37 @@ pub fn run(ctx: &Ctx) -> Shard {
             }
         }
     }
+    // free lists of every length around "exactly fills its page(s)", written and read back by the current
+    // code after every commit, and parsed by the pinned-layout reader (executor option fileck_each_commit)
+    for (wi, (ps, index)) in [(1024u64, 2usize), (5000, 2), (1024, 3), (4096, 2)].iter().enumerate() {
+        if (wi as u64 + 8) % ctx.nshards != ctx.shard || (!ctx.thorough() && wi >= 2) {
+            continue;
+        }
+        if let Some(h) = crate::shape::freelist_walk_history(*ps, *index) {
+            let path = scratch.fresh("walk");
+            let out = exec::run_history(&h, &ExecCfg { verify_after_commit: true, fileck_each_commit: true, ..Default::default() }, &path);
+            let _ = std::fs::remove_file(&path);
+            shard.evaluations += 1;
+            let hh = util::fnv64(format!("walk|{}|{}", ps, index).as_bytes());
+            shard.distinct.insert(hh);
+            shard.nontrivial.insert(hh);
+            st.walk_commits += out.stats.commits;
+            st.walk_reopens += out.stats.reopens;
+            if let Some(v) = out.violations.first() {
+                shard.violation(ctx, &format!("layout:free-list-walk:{}", v.sig), &format!("[page size {}] {} :: {}", ps, h.origin, v.detail), &serde_json::json!({"kind": "history", "history": h}));
+            }
+        }
+    }
+    // files whose free list exactly fills its page run
+    for (pi, (ps, hits)) in [(1024u64, 2u64), (5000, 1), (4096, 1)].iter().enumerate() {
+        if (pi as u64 + 13) % ctx.nshards != ctx.shard || (!ctx.thorough() && pi >= 2) {
+            continue;
+        }
+        let (h, c) = exact_fill_probe(ctx, &mut shard, *ps, &scratch, *hits);
+        shard.evaluations += 1;
+        st.exact_fill_hits += h;
+        st.exact_fill_commits += c;
+    }
     // small files (never grown) opened with every other page size: refused, bytes unchanged
     for (si, (ps, np)) in [(1024u64, 8usize), (1024, 32), (4096, 4), (5000, 6), (2048, 16)].iter().enumerate() {
         if (si as u64 + 11) % ctx.nshards != ctx.shard {
@@ -495,7 +649,7 @@ pub fn run(ctx: &Ctx) -> Shard {
         let path = scratch.fresh("leg");
         let out = exec::run_history(&h, &ExecCfg::default(), &path);
         if out.aborted || !out.violations.is_empty() {
-            shard.inconclusive(format!("could not build the {}-commit file at page size {}", n_commits, ps));
+            shard.inconclusive_or_workload(ctx, &format!("[{}-commit file at page size {}]", n_commits, ps), &crate::report::workload_failure(out.violations.first(), "could not build the file"), &serde_json::json!({"kind": "history", "history": h}));
             continue;
         }
         let mut model = MBucket::default();
@@ -530,6 +684,10 @@ pub fn run(ctx: &Ctx) -> Shard {
     }
     shard.count("wrong_page_sizes_refused_in_wide_sweep", st.wide_sweep_refused);
     shard.count("legacy_files_with_1_to_5_commits_checked", st.legacy_commit_count_files);
+    shard.count("free_list_walk_commits(every length around a full page, reopened after each)", st.walk_commits);
+    shard.count("free_list_walk_reopens", st.walk_reopens);
+    shard.count("files_whose_free_list_exactly_fills_its_pages_reopened", st.exact_fill_hits);
+    shard.count("commits_made_to_steer_the_free_list_to_an_exact_fill", st.exact_fill_commits);
     shard.count("golden_files_with_garbage_in_uninitialised_padding", st.fuzzed_padding_files);
     shard.count("small_file_page_size_mismatches_refused", st.small_file_mismatches_refused);
     shard.count("golden_files_checked", st.files);
